@@ -1,7 +1,7 @@
 From PL Require Import Data.Decimal.
 From Coq Require Import ZifyBool ZifyN.
 Ltac Zify.zify_post_hook ::= Z.div_mod_to_equations.
-Open Scope N_scope.
+Local Open Scope N_scope.
 
 Lemma digit_of_mod n : is_digit (48 + n mod 10) = true.
 Proof. unfold is_digit. assert (n mod 10 < 10) by (apply N.mod_lt; lia). lia. Qed.
@@ -77,17 +77,49 @@ Proof.
   rewrite Hval. f_equal; lia.
 Qed.
 
+Lemma digits_val_ge ds : forall a v, (0 <= a)%Z -> digits_val ds a = Some v -> (a <= v)%Z.
+Proof.
+  induction ds as [|d ds IH]; intros a v Ha H; cbn in H.
+  - injection H as <-. lia.
+  - destruct (is_digit d) eqn:Ed; [|discriminate].
+    assert (Hd : (0 <= Z.of_N (d - 48))%Z) by lia.
+    apply IH in H; lia.
+Qed.
+
+Lemma scan_digits_val (neg : bool) (ds : text) : forall a v : Z, (0 <= a)%Z -> digits_val ds a = Some v ->
+  in_i64 (if neg then (- v)%Z else v) = true ->
+  scan_digits neg ds (if neg then (- a)%Z else a) = inr (if neg then (- v)%Z else v).
+Proof.
+  induction ds as [|d ds IH]; intros a v Ha H Hr; cbn [digits_val scan_digits] in H |- *.
+  - injection H as <-. reflexivity.
+  - destruct (is_digit d) eqn:Ed; [|discriminate].
+    assert (Hd : (0 <= Z.of_N (d - 48))%Z) by lia.
+    set (w := Z.of_N (d - 48)) in *.
+    assert (Ha' : (0 <= a * 10 + w)%Z) by lia.
+    pose proof (digits_val_ge ds _ _ Ha' H) as Hge.
+    destruct neg.
+    + assert (Hin : in_i64 (- a * 10 - w)%Z = true) by (unfold in_i64, i64_min, i64_max in *; lia).
+      rewrite Hin. replace (- a * 10 - w)%Z with (- (a * 10 + w))%Z by lia.
+      apply (IH (a * 10 + w)%Z v Ha' H Hr).
+    + assert (Hin : in_i64 (a * 10 + w)%Z = true) by (unfold in_i64, i64_min, i64_max in *; lia).
+      rewrite Hin. apply (IH (a * 10 + w)%Z v Ha' H Hr).
+Qed.
+
 Theorem parse_show_i64 z : in_i64 z = true -> parse_i64 (show_i64 z) = Some z.
 Proof.
-  intros Hr. unfold show_i64. destruct (Z.ltb_spec z 0) as [Hneg|Hpos].
+  intros Hr. unfold show_i64, parse_i64. destruct (Z.ltb_spec z 0) as [Hneg|Hpos].
   - destruct (show_N_digits (Z.abs_N z)) as (d & ds & Heq & Hd & Hall & Hval).
-    unfold parse_i64. rewrite N.eqb_refl. rewrite Heq, Hval.
-    replace (- Z.of_N (Z.abs_N z))%Z with z by lia. rewrite Hr. reflexivity.
+    unfold parse_i64_full. rewrite N.eqb_refl. rewrite Heq.
+    pose proof (scan_digits_val true (d :: ds) 0%Z _ ltac:(lia) Hval) as H.
+    replace (- Z.of_N (Z.abs_N z))%Z with z in H by lia. change (- 0)%Z with 0%Z in H.
+    rewrite (H Hr). reflexivity.
   - destruct (show_N_digits (Z.to_N z)) as (d & ds & Heq & Hd & Hall & Hval).
-    unfold parse_i64. rewrite Heq.
+    unfold parse_i64_full. rewrite Heq.
     assert (d =? c_minus = false) as -> by (unfold is_digit, c_minus in *; lia).
     assert (d =? c_plus = false) as -> by (unfold is_digit, c_plus in *; lia).
-    rewrite Hval. replace (Z.of_N (Z.to_N z)) with z by lia. rewrite Hr. reflexivity.
+    pose proof (scan_digits_val false (d :: ds) 0%Z _ ltac:(lia) Hval) as H.
+    replace (Z.of_N (Z.to_N z)) with z in H by lia.
+    rewrite (H Hr). reflexivity.
 Qed.
 
 (* the printed text of an integer starts with '-' or a digit and continues with digits:
